@@ -49,9 +49,13 @@ func checkOwnOutput(data []byte, want *ref.RCell, idx, crc, cache bool) error {
 		return fmt.Errorf("output stores %d cells, the DAG has %d distinct cells (shared sub-trees must be stored once)", len(info.Cells), n)
 	}
 	// minimal widths, as every conforming writer that claims canonical output uses
-	back, err := boc.DeserializeBoc(data)
+	input := append([]byte{}, data...)
+	back, err := boc.DeserializeBoc(input)
 	if err != nil {
 		return fmt.Errorf("tongo cannot parse its own output: %v", err)
+	}
+	for i := range input { // the parsed cells must not share memory with the caller's buffer
+		input[i] = 0xff
 	}
 	if len(back) != 1 {
 		return fmt.Errorf("own output parses to %d roots", len(back))
@@ -239,9 +243,14 @@ var foreign = &core.Check{Name: "c01/foreign", Quick: 1500, Thorough: 80000, Fn:
 	if _, err := ref.ParseBOCInfo(data); err != nil {
 		return fmt.Errorf("HARNESS-SELF-CHECK: reference parser rejects reference output: %v", err)
 	}
-	got, err := boc.DeserializeBoc(data)
+	input := append([]byte{}, data...)
+	got, err := boc.DeserializeBoc(input)
 	if err != nil {
 		return fmt.Errorf("DeserializeBoc rejects a well-formed bag (variant %+v): %v", v, err)
+	}
+	// the caller owns its buffer again after the call: scribbling over it must not change the cells
+	for i := range input {
+		input[i] ^= 0xa5
 	}
 	if len(got) != len(roots) {
 		return fmt.Errorf("%d roots parsed, %d written", len(got), len(roots))
